@@ -174,13 +174,21 @@ def prove(ctx, modules, theorems):
     if changed:
         ctx.notes.append("facts regenerated from the source differ from the committed Generated/Facts.lean")
     ok, log = lake_build(list(modules) + ["driver"])
+    build_detail = ""
     if not ok:
-        # find which module failed
+        # find out which modules still build; theorems of the others are undischarged
         failed = re.findall(r"error: (Helios/[^:]+):(\d+):\d+: (.*)", log)
-        detail = "; ".join("%s:%s %s" % f for f in failed[:5]) or log[-2000:]
-        for th in theorems:
-            ctx.obligations.append((th, False, "lake build failed: " + detail))
-        return False
+        build_detail = "; ".join("%s:%s %s" % f for f in failed[:5]) or log[-1500:]
+        good = []
+        for m in modules:
+            ok1, _ = lake_build([m])
+            if ok1:
+                good.append(m)
+        if not good:
+            for th in theorems:
+                ctx.obligations.append((th, False, "lake build failed: " + build_detail))
+            return False
+        modules = good
     imports = "\n".join("import " + m for m in modules)
     body = "\n".join("#print axioms %s" % th for th in theorems)
     af = ctx.path("Audit_%s.lean" % ctx.prop)
@@ -204,7 +212,8 @@ def prove(ctx, modules, theorems):
                 ctx.obligations.append((th, True, "axioms: " + ",".join(axs)))
         else:
             allok = False
-            ctx.obligations.append((th, False, "theorem not found / audit failed: " + out[-400:]))
+            why = ("its module no longer builds: " + build_detail) if build_detail else ("theorem not found / audit failed: " + out[-400:])
+            ctx.obligations.append((th, False, why))
     hits = grep_forbidden(modules)
     if hits:
         allok = False
